@@ -13,8 +13,8 @@ TRUSTED = [
     "valid front, and the validity check / retry is necessary (witness); a capacity test that is never decisive may be skipped; per-group Pareto pruning between steps keeps the front (C13)",
     "that the real staged join instantiates these hypotheses (thresholds come from achievable solutions, untracked memories are never decisive, lookahead only drops keys that cannot be "
     "completed, combined reservations are equivalent) is NOT proved: it is what the correspondence run tests on real pmapping tables",
-    "reference side: join_pmappings of the CURRENT source run once, directly on the unpruned tables, with RESOURCE_USAGE added to the metrics (every reservation column kept, no memory "
-    "dropped), reservations not combined, and the lookahead elimination switched off by a source transformation inside the harness process (falls back, and says so in the evidence, "
+    "reference side: pmapping tables made with RESOURCE_USAGE in the metrics and can_combine_multiple_runs (every memory tracked, no reservation column dropped at any stage), then "
+    "join_pmappings of the CURRENT source run once, directly on those tables, reservations not combined, and the lookahead elimination switched off by a source transformation inside the harness process (falls back, and says so in the evidence, "
     "if the statement is no longer found); both sides share Compatibility.merge_next and PmappingDataframe.merge_next on pairs (C13 ties those to combinations of single pmappings)",
 ]
 
@@ -80,7 +80,18 @@ def run(ck):
         dist["dirty_rounds"] += max(0, calls["joins"] - 1)
         dist["untracked_memory_msgs"] += calls["untracked"]
         try:
-            ex_df = JR.exact_join(af, pm, E | L | RU)
+            pm_ref = pm
+            if not (RU & metrics):
+                # the reference tables are made with every memory tracked (RESOURCE_USAGE keeps every reservation column; make_pmappings'
+                # own "memory is big enough / never reserved across fused loops" skipping is an acceleration under test)
+                cwd = os.getcwd()
+                os.chdir(d)
+                try:
+                    pm_ref = MM.make_pmappings(JR.load_spec(af, p, d, E | L | RU), print_progress=False, can_combine_multiple_runs=True)
+                finally:
+                    os.chdir(cwd)
+                dist["reference_tables_rebuilt"] = dist.get("reference_tables_rebuilt", 0) + 1
+            ex_df = JR.exact_join(af, pm_ref, E | L | RU)
         except Exception as ex:  # noqa
             ex_err = f"{type(ex).__name__}: {str(ex)[:200]}"
         key = json.dumps([p, mname], sort_keys=True, default=str)
